@@ -290,7 +290,8 @@ fn states(inst: &InstRep, vc: &VarCfg, edges: bool) -> Vec<(Vec<(u64, f64)>, boo
 }
 
 pub fn run(ctx: &Ctx) -> Finish {
-    let t = ctx.tier == Tier::Thorough;
+    // the full product takes ~20 s, so both tiers run it
+    let t = true;
     let kbs = kind_bounds();
     let objs = objectives();
     // Enumeration 1: constraint/flag focus
